@@ -50,6 +50,9 @@ Definition s_sframe (f : sframe) : string :=
   | SBody u len => "body(" ++ sN u ++ "," ++ sN len ++ ")"
   | SAck t m => "basic.ack(" ++ sN t ++ "," ++ sB m ++ ")"
   | SConfirmSelectOk => "confirm.select-ok"
+  | SConnStart => "connection.start"
+  | SConnTune => "connection.tune"
+  | SConnOpenOk => "connection.open-ok"
   | SConnGone => "GONE"
   end.
 
@@ -104,7 +107,8 @@ Definition s_channel (cfg : config) (s : state) (c : N) (hkv : N * channel) : st
 
 Definition s_conn (cfg : config) (s : state) (ckv : N * conn) : list string :=
   let '(c, cn) := ckv in
-  ("conn " ++ sN c ++ " qos=" ++ s_qos (cn_qos cn)) ::
+  ("conn " ++ sN c ++ " st=" ++ (match cn_stage cn with StStart => "s" | StTune => "t" | StTuneOk => "k" | StOpen => "o" end) ++
+   " qos=" ++ s_qos (cn_qos cn)) ::
   map (s_channel cfg s c) (fold_right (fun x l => let fix ins l := match l with [] => [x] | y :: t => if N.leb (fst x) (fst y) then x :: l else y :: ins t end in ins l) [] (cn_chans cn)).
 
 Definition s_queue (s : state) (qkv : string * queue) : string :=
